@@ -191,6 +191,10 @@ def generate(rng, tier):
         case["scalar"] = {"val": float(rng.choice([4, 3, 0.5, -2, 7])), "unit": rng.choice(["s", "m", "", "g"]), "kind": rng.choice(["arr", "arr", "vec"]),
                           "route": rng.choice(["copy", "copy.copy", "deepcopy", "dg-deepcopy", "ds-deepcopy"]), "side": rng.choice(["copy", "orig"]),
                           "sym": rng.choice("+-*/"), "num": float(rng.choice([2, 4, 0.5, 3]))}
+    if rng.random() < 0.08:
+        # an Array built on a read-only window (a locked view, a broadcast) onto data that another Array owns
+        case["readonly"] = {"kind": rng.choice(["locked-view", "broadcast"]), "route": rng.choice(["copy", "copy.copy", "deepcopy", "dg-deepcopy", "ds-deepcopy", "vec"]),
+                            "vals": [float(rng.randrange(1, 9)) for _ in range(4)]}
     if rng.random() < 0.12:
         # dtypes beyond float and signed integer (unsigned counters, complex amplitudes), operand of the same dtype
         dt = rng.choice(["u1", "u2", "u4", "u8", "c8", "c16"])
@@ -357,6 +361,56 @@ def scalar_scenario(sc, osy, V, stats):
         V(0, op, "exception", {"error": f"{type(e).__name__}: {e}"[:300]})
 
 
+def readonly_scenario(ro, osy, V, stats):
+    """A copy (by any route) of an Array whose buffer is a read-only window onto data that another Array can write: the copy
+    keeps its values when the owner is updated in place, and can itself be updated in place without touching the owner."""
+    op = {"op": "readonly", "readonly": ro}
+    stats.inc("probe.copy_of_an_array_on_a_read_only_buffer=" + ro["route"])
+    try:
+        n = 4
+        if ro["kind"] == "locked-view":
+            a = osy.Array(values=np.array(ro["vals"][:n], dtype=float), unit="m")
+            win = a.values.view()
+            win.flags.writeable = False
+        else:
+            a = osy.Array(values=np.array(ro["vals"][:1], dtype=float), unit="m")
+            win = np.broadcast_to(a.values, (n,))
+        r = osy.Array(values=win, unit="m")
+        if not np.shares_memory(r.values, a.values):
+            return  # (the constructor copied: nothing to test)
+        route = ro["route"]
+        if route == "vec":
+            c = _copy.deepcopy(osy.Vector(x=r, y=r)).x
+        elif route in ("copy", "copy.copy", "deepcopy"):
+            c = {"copy": lambda q: q.copy(), "copy.copy": _copy.copy, "deepcopy": _copy.deepcopy}[route](r)
+        else:
+            dg = osy.Datagroup()
+            dg["a"] = r
+            if route == "dg-deepcopy":
+                c = _copy.deepcopy(dg)["a"]
+            else:
+                ds = osy.Dataset()
+                ds["g"] = dg
+                c = _copy.deepcopy(ds)["g"]["a"]
+        before = np.array(c.values, dtype=float).copy()
+        a *= 2.0
+        if not np.array_equal(np.asarray(c.values, dtype=float), before):
+            V(0, op, "copy-not-independent", {"copy_now": np.asarray(c.values).tolist(), "was": before.tolist(), "direction": "owner-updated"})
+            return
+        owner_now = np.array(a.values, dtype=float).copy()
+        try:
+            c += osy.Array(values=1.0, unit="m")
+        except Exception as e:
+            V(0, op, "copy-not-independent", {"copy_cannot_be_updated": f"{type(e).__name__}: {e}"[:120]})
+            return
+        if not np.array_equal(np.asarray(a.values, dtype=float), owner_now) or not np.array_equal(np.asarray(c.values, dtype=float), before + 1.0):
+            V(0, op, "copy-not-independent", {"owner_now": np.asarray(a.values).tolist(), "copy_now": np.asarray(c.values).tolist(), "direction": "copy-updated"})
+    except HarnessError:
+        raise
+    except Exception as e:
+        V(0, op, "exception", {"error": f"{type(e).__name__}: {e}"[:300]})
+
+
 def narrow_scenario(nc, osy, V, stats):
     """x op= y on an Array (or the components of a Vector) of unsigned-integer or complex dtype, with an operand of the same
     dtype: same object, value and unit of x op y (unit from plain unit arithmetic), seen through both groups holding x, y untouched."""
@@ -423,6 +477,8 @@ def execute(case, stats):
 
     if case.get("scalar"):
         scalar_scenario(case["scalar"], osy, V, stats)
+    if case.get("readonly") and not viol:
+        readonly_scenario(case["readonly"], osy, V, stats)
     if case.get("narrow") and not viol:
         narrow_scenario(case["narrow"], osy, V, stats)
         if viol:
@@ -945,7 +1001,7 @@ def execute(case, stats):
 
 
 def measure(case):
-    return (len(case["ops"]), int(bool(case.get("scalar"))) + int(bool(case.get("big"))) + int(bool(case.get("narrow"))), case["n"], len(core.dumps(case["ops"])))
+    return (len(case["ops"]), int(bool(case.get("scalar"))) + int(bool(case.get("big"))) + int(bool(case.get("narrow"))) + int(bool(case.get("readonly"))), case["n"], len(core.dumps(case["ops"])))
 
 
 def reductions(case, viol):
@@ -957,6 +1013,11 @@ def reductions(case, viol):
     if case.get("big"):
         c = dict(case)
         del c["big"]
+        yield c
+        yield dict(case, ops=[])
+    if case.get("readonly"):
+        c = dict(case)
+        del c["readonly"]
         yield c
         yield dict(case, ops=[])
     if case.get("narrow"):
